@@ -10,6 +10,7 @@ import tempfile
 import threading
 
 from xsdata.formats.dataclass.context import XmlContext
+from xsdata.formats.dataclass.models.elements import XmlVar
 
 from . import sched
 
@@ -92,6 +93,10 @@ def markers() -> sched.MarkerSet:
                     (r"if qname in self\.xsi_cache", "x_lookup"),
                     (r"return self\.xsi_cache\[qname\]", "x_read"),
                 ],
+            ),
+            sched.Marker(
+                XmlVar.match_namespace,
+                [(r"self\.namespace_matches", "m_access")],     # the lazy per-field memo of wildcard namespace matches
             ),
             sched.Marker(
                 XmlContext.build,
